@@ -41,6 +41,7 @@ def check(res):
     kk = set()
     n0 = len(res.violations)
     c03.huge_words(res, build_driver("c03_driver", "asan"), kk, "oracle:content:")
+    c03.zero_hash_first(res, build_driver("c03_driver", "asan"), kk, "oracle:content:")
     keys = keys or bool(kk)
     if not all(status.values()) and not keys:
         st = f["stores"]["dtors"]
